@@ -422,6 +422,7 @@ func checkFloat(c FloatCase, gens []floatGen, st *floatStats) string {
 		}
 		fs[i] = f
 	}
+	reused := funcGen.NewEmptyStack[float64]()
 	usesY := c.Tree.HasVar(map[string]bool{"y": true})
 	usesX := c.Tree.HasVar(map[string]bool{"x": true})
 	for _, x := range floatGrid {
@@ -449,6 +450,11 @@ func checkFloat(c FloatCase, gens []floatGen, st *floatStats) string {
 				}
 				if got != w {
 					return fmt.Sprintf("%s: %q with x=%v y=%v = %v, want %v", gens[i].name, c.Text, x, y, got, w)
+				}
+				// one stack for all assignments, initialised again for each
+				reused = reused.Init(x, y)
+				if got, err := f(reused); err != nil || got != w {
+					return fmt.Sprintf("%s: %q with x=%v y=%v on a stack that was initialised again = %v (%v), want %v", gens[i].name, c.Text, x, y, got, err, w)
 				}
 			}
 		}
